@@ -134,8 +134,10 @@ func httpProvSim(r *simcore.Run) {
 						o.calls++
 						o.model.Unreachable(f.Kind.String())
 					default:
+						// refused / reset / timed out: a network issue. The documentation of the providers promises that the
+						// rule sets received before are preserved then (only answers other than 200 count as removal)
 						o.calls++
-						o.model.Unreachable(f.Kind.String())
+						o.model.Kept("network issue: " + f.Kind.String())
 					}
 					o.faults = append(o.faults, f.Kind.String())
 				}
